@@ -27,8 +27,8 @@ ConsI(name, ents, lo, hi) ==
 
 ConsP(name, pts, lo, hi) ==
   LET ps == SortPt(pts)
-      lo2 == MinOf({lo} \cup Times(ps))
-      hi2 == MaxOf({hi} \cup Times(ps))
+      lo2 == MinOf({lo, hi} \cup Times(ps))          \* point tiers: one list of all times incl. minT and maxT
+      hi2 == MaxOf({lo, hi} \cup Times(ps))
   IN [st |-> "ok", tier |-> MkTier("P", name, lo2, hi2, ps)]
 
 ConsK(kind, name, ents, lo, hi) == IF kind = "I" THEN ConsI(name, ents, lo, hi) ELSE ConsP(name, ents, lo, hi)
